@@ -167,6 +167,32 @@ WRITERS = {
 }
 
 
+def _only_called_by(prog, g, allowed, depth=0):
+    """the callers of static function g if there are any and all of them are in `allowed` (transitively through other
+    static helpers), else an empty set"""
+    callers = set()
+    for fs in prog.functions.values():
+        for h in fs:
+            if not h.blocks or h.tu != g.tu or h.name == g.name:
+                continue
+            if any(c.get("fn") == g.name for b, i, e in h.iter_elems() for c in ex.calls(e, into_refs=False)):
+                callers.add(h)
+    if not callers:
+        return set()
+    out = set()
+    for h in callers:
+        if h.name in allowed:
+            out.add(h.name)
+        elif h.static and depth < 2:
+            sub = _only_called_by(prog, h, allowed, depth + 1)
+            if not sub:
+                return set()
+            out |= sub
+        else:
+            return set()
+    return out
+
+
 def check_norm(ck, prog, whole):
     ck.rule("C01-NORM", "wrap test after every read_pos increment; normalize() treats hash[] and son[] alike; "
                         "frozen writer sets of the window position fields")
@@ -236,6 +262,11 @@ def check_norm(ck, prog, whole):
                 ls = ex.strip(l)
                 if ls is not None and ls.get("k") == "mem" and ls.get("rec") in ("lzma_mf_s", "lzma_mf") and \
                         ls["f"] in WRITERS:
+                    if g.static and g.name not in WRITERS[ls["f"]] and _only_called_by(whole, g, WRITERS[ls["f"]]):
+                        # a static helper all of whose callers are writers of the member is part of them (code that was
+                        # extracted from a writer stays a writer)
+                        seen[ls["f"]].add(sorted(_only_called_by(whole, g, WRITERS[ls["f"]]))[0])
+                        continue
                     seen[ls["f"]].add(g.name)
                     if g.name not in WRITERS[ls["f"]]:
                         ck.ob("C01-NORM", "writer:%s:%s" % (ls["f"], g.name), False, common.where(g),
